@@ -207,6 +207,19 @@ theorem settleCall_not_success (feeOn : Bool) (s : ZSt) (c : Call) (r : Option (
     obtain ⟨a', _, _, _, h'⟩ := settleCall_failed feeOn s c r hst
     exact ⟨a', h'⟩
 
+/-- a component of the contract state that the contract result leaves alone is left alone by the call. -/
+theorem settleCall_field {β : Type} (f : ZSt → β) (hf : ∀ (x : ZSt) (a : Accts), f { x with accts := a } = f x)
+    (feeOn : Bool) (s : ZSt) (c : Call) (r : Option (ZSt × List Transfer))
+    (hr : ∀ s' q, r = some (s', q) → f s' = f s) : f (settleCall feeOn s c r).1 = f s := by
+  cases hst : (settleCall feeOn s c r).2 with
+  | rejected => rw [settleCall_rejected feeOn s c r hst]
+  | failed =>
+    obtain ⟨a', _, _, _, h⟩ := settleCall_failed feeOn s c r hst
+    rw [h, hf]
+  | success =>
+    obtain ⟨s', q, a', hr', _, _, h⟩ := settleCall_success feeOn s c r hst
+    rw [h, hf]; exact hr s' q hr'
+
 /-- a call whose contract part failed never reports success, and a call whose contract part succeeded
 never reports `failed`. -/
 theorem settleCall_none_ne_success (feeOn : Bool) (s : ZSt) (c : Call) :
